@@ -672,6 +672,41 @@ func lockMutexMain(args []string) {
 			}()
 		}
 	}
+	// ---------------- W7: the holder's own lock object makes a second, failing attempt ----------------
+	for _, backend := range []string{"mem", "os"} {
+		func() {
+			w := newLockWorld(backend, nil, false)
+			defer w.cleanup()
+			ty := filesystem.InMemoryFS
+			if backend == "os" {
+				ty = filesystem.StandardFS
+			}
+			mk := func(override bool) filesystem.ILock {
+				vfs := filesystem.NewVirtualFileSystem(w.inner, ty, filesystem.IdentityPathConverterFunc).(*filesystem.VFS)
+				return filesystem.NewGenericRemoteLockFile(vfs, "L7", w.dir, override)
+			}
+			holder, contender, observer := mk(false), mk(true), mk(false)
+			caseTxt := "lockcase w7-holder-object-times-out-on-a-second-attempt " + backend
+			rep.Eval(caseTxt, true)
+			rep.Hist("w7")
+			if err := holder.TryLock(ctx); err != nil {
+				rep.Fail(hx.Failure{Kind: "harness-error", Key: "w7-holder", Case: caseTxt, Detail: err.Error()})
+				return
+			}
+			// a re-entrant attempt (or another goroutine sharing the object): it cannot succeed and times out
+			again := holder.LockWithTimeout(ctx, 40*time.Millisecond)
+			time.Sleep(260 * time.Millisecond) // more than two heart-beat periods later the holder still holds
+			stale := observer.IsStale()
+			cerr := contender.TryLock(ctx)
+			if again == nil || stale || cerr == nil {
+				rep.Fail(hx.Failure{Kind: "impl-violates-property", Key: "two-holders:holder-loses-its-lock-after-its-own-failed-second-attempt", Case: caseTxt,
+					Expected: "the second attempt fails, the lock stays live: not stale, a contender (which overrides stale locks) is refused",
+					Observed: fmt.Sprintf("second attempt: %v; IsStale=%v; contender's TryLock: %v", again, stale, cerr)})
+			}
+			_ = holder.Unlock(ctx)
+			_ = contender.Unlock(ctx)
+		}()
+	}
 	// ---------------- random concurrent cycles -------------------------------------------------------
 	runs := 30
 	if o.Thorough() {
